@@ -60,6 +60,48 @@ func EnforceUTF8(fd protoreflect.FieldDescriptor) bool {
 	return val == descriptorpb.FeatureSet_VERIFY
 }
 
+// WantPresence is the reference answer to "does this field track presence",
+// derived from the schema alone (syntax, label, oneof membership, kind and, for
+// editions, the field_presence feature resolved here along the options chain),
+// independently of the implementation's HasPresence.
+func WantPresence(fd protoreflect.FieldDescriptor) bool {
+	if xtd, ok := fd.(protoreflect.ExtensionTypeDescriptor); ok {
+		fd = xtd.Descriptor()
+	}
+	switch {
+	case fd.Cardinality() == protoreflect.Repeated:
+		return false
+	case fd.IsExtension(), fd.ContainingOneof() != nil, fd.Kind() == protoreflect.MessageKind, fd.Kind() == protoreflect.GroupKind:
+		return true
+	}
+	switch fd.Syntax() {
+	case protoreflect.Proto2:
+		return true
+	case protoreflect.Proto3:
+		return false
+	}
+	val := descriptorpb.FeatureSet_EXPLICIT
+	var chain []protoreflect.Descriptor
+	for d := protoreflect.Descriptor(fd); d != nil; d = d.Parent() {
+		chain = append(chain, d)
+	}
+	for i := len(chain) - 1; i >= 0; i-- {
+		var fs *descriptorpb.FeatureSet
+		switch o := chain[i].Options().(type) {
+		case *descriptorpb.FileOptions:
+			fs = o.GetFeatures()
+		case *descriptorpb.MessageOptions:
+			fs = o.GetFeatures()
+		case *descriptorpb.FieldOptions:
+			fs = o.GetFeatures()
+		}
+		if fs != nil && fs.FieldPresence != nil {
+			val = fs.GetFieldPresence()
+		}
+	}
+	return val != descriptorpb.FeatureSet_IMPLICIT
+}
+
 // ImplEnforceUTF8 reads the implementation's own pseudo-internal accessor (for
 // accessor dumps that compare two constructions of the same descriptor).
 func ImplEnforceUTF8(fd protoreflect.FieldDescriptor) bool {
